@@ -1,5 +1,5 @@
 from .. import facts
-from ..rules import opacity, algebra, factors, floatmask
+from ..rules import tables, opacity, algebra, factors, floatmask
 
 
 def run(ck):
@@ -16,3 +16,4 @@ def run(ck):
     floatmask.r6_c_mask(ck, P, decided or ())
     floatmask.r7_set_sat(ck, P)
     opacity.r2_opacity_flags(ck, P)          # C09-R2: a wrongly opaque source has its operator rewritten and the equations no longer hold
+    tables.r15_pixbuf_substitution(ck, P)
